@@ -500,10 +500,32 @@ func (fr *frame) exec(ins ssa.Instruction) contKind {
 		if fr.skipPhis {
 			break
 		}
-		for i, p := range ins.Block().Preds {
+		// the phis of a block are one parallel assignment: all of them read the values of the
+		// predecessor before any of them is written (matters for `prev, cur = cur, next` in loops)
+		blk := ins.Block()
+		if blk.Instrs[0] != ssa.Instruction(ins) {
+			break // assigned together with the first phi of the block
+		}
+		edge := -1
+		for i, p := range blk.Preds {
 			if p == fr.prev {
-				fr.env[ins] = fr.get(ins.Edges[i])
+				edge = i
 				break
+			}
+		}
+		if edge >= 0 {
+			var phis []*ssa.Phi
+			var vals []Value
+			for _, bi := range blk.Instrs {
+				phi, isPhi := bi.(*ssa.Phi)
+				if !isPhi {
+					break
+				}
+				phis = append(phis, phi)
+				vals = append(vals, fr.get(phi.Edges[edge]))
+			}
+			for i, phi := range phis {
+				fr.env[phi] = vals[i]
 			}
 		}
 	case *ssa.Select:
